@@ -140,7 +140,9 @@ def main(argv=None):
         for key, mins in meta["quotas"].items():
             need = mins.get(args.tier, 0)
             scale = float(os.environ.get("VERIF_SCALE", "1"))
-            need = int(need * min(1.0, scale))
+            # the listed numbers are about half the typical class counts; seed-to-seed variation of short Hypothesis runs
+            # reached 30% below them (DESIGN 11.15), so starvation is declared at half the listed value
+            need = int(need * min(1.0, scale) * 0.5)
             if key.startswith("part:"):
                 got = parts.get(key[5:], {}).get("distinct_nontrivial", 0)
             elif key == "distinct_nontrivial":
